@@ -388,7 +388,7 @@ def step (st : St) (line : String) : St × String :=
         else f.keySets ++ [ks]
       let f' := { f with keySets := sets' }
       let newSids := (es.zip ss).map fun (e, s) => (opKey e f.cfid, s)
-      let newNames := es.map fun e => (opKey e f.cfid, s!"g{no}:{e}")
+      let newNames := es.map fun e => (opKey e f.cfid, s!"g{no}.{e}")
       ({ st with fabs := st.fabs.map (fun x => if x.1 = no then (no, f') else x),
                  sids := newSids ++ st.sids, keyNames := newNames ++ st.keyNames }, "ok")
   | "gm" :: rest =>
